@@ -1,5 +1,7 @@
 """C06 — cmap conformance: the Mac Roman conversions are mutual inverses (both match tables read
 from MIR and compared exhaustively)."""
+import re
+
 import tableread
 from facts import callee_is
 
@@ -16,11 +18,78 @@ NOT_DECIDED = ("format 0/2/4/6/10/12 lookup arithmetic, subtable preference orde
                "agreement, and the Big5 conversions (delegated to encoding_rs, outside this crate).")
 
 
+def t06_pua(run, fx):
+    rule = "T06-PUA"
+    run.rule(rule, "Symbol encoding: the Private Use Area block of a symbol font is U+F000..=U+F0FF, both ends included (OpenType cmap, "
+                   "platform 3 encoding 0). Each function that folds the block tests membership with both bounds inclusive: comparisons "
+                   "(< 0xF000 / > 0xF0FF or their negations) or RangeInclusive::contains over 0xF000..=0xF0FF")
+    import sym
+    import guards
+    targets = [b for b in fx.bodies if b.kind != "Closure" and b.root.endswith(("::legacy_symbol_char_code", "legacy_symbol_char_code_to_unicode"))]
+    if not targets:
+        return run.anchor_missing(rule, "legacy_symbol_char_code / legacy_symbol_char_code_to_unicode")
+
+    def cval(t):
+        t = sym.strip(t)
+        while t[0] == "cast":
+            t = sym.strip(t[4])
+        if t[0] == "c":
+            v = t[1]
+            if isinstance(v, str) and len(v) == 1:
+                return ord(v)
+            if isinstance(v, int):
+                return v
+            m = re.search(r"u\{([0-9a-fA-F]+)\}", str(t[3]) if len(t) > 3 else "")
+            if m:
+                return int(m.group(1), 16)
+        return None
+    for b in targets:
+        prov = sym.Prov(b)
+        lower = upper = False
+        bad = []
+        for tb, fb_, op, x, y, sw in guards.branch_conditions(b, prov):
+            for (o, k) in ((op, cval(y)), (guards.CMP_FLIP.get(op), cval(x))):
+                if k is None or o is None:
+                    continue
+                if k == 0xF000 and o in ("Lt", "Ge"):
+                    lower = True
+                elif k == 0xF0FF and o in ("Gt", "Le"):
+                    upper = True
+                elif k == 0xF100 and o in ("Lt", "Ge"):
+                    upper = True
+                elif k in (0xF000, 0xF0FF, 0xF100, 0xEFFF):
+                    bad.append("%s %#x" % (o, k))
+        for bi, t in b.calls():
+            p = t["callee"].get("path") or ""
+            if p.endswith("::contains") and "Range" in p:
+                rt = prov.op(t["args"][0])
+                ks = {cval(x) for x in sym.walk(rt) if x[0] == "c"}
+                for x in sym.walk(rt):
+                    if x[0] == "promoted":
+                        for st in x[1]:
+                            ks |= {int(m) for m in re.findall(r"const (\d+)_u32", st)}
+                            ks |= {int(m, 16) for m in re.findall(r"const '\\u\{([0-9a-fA-F]+)\}'", st)}
+                ks.discard(None)
+                if "RangeInclusive" in p and {0xF000, 0xF0FF} <= ks:
+                    lower = upper = True
+                elif "RangeInclusive" not in p and {0xF000, 0xF100} <= ks:
+                    lower = upper = True
+                elif ks & {0xF000, 0xF0FF, 0xF100}:
+                    bad.append("%s over %s" % (p.split("::")[-3] if p.count("::") > 2 else p, sorted(hex(k) for k in ks)))
+        if lower and upper and not bad:
+            run.ok(rule, "%s: membership test covers U+F000..=U+F0FF" % b.path)
+        else:
+            run.fail(rule, "pua:%s" % b.root, "%s: the symbol PUA block is not tested as U+F000..=U+F0FF inclusive (%s): a boundary character is folded "
+                     "or left alone wrongly" % (b.path, "; ".join(bad) or "no inclusive test of both bounds found"), "%s:%s" % (b.file, b.line))
+
+
 def check(run, fx, tier, floors=True):
     macroman(run, fx, floors)
     if fx.body("font::find_good_cmap_subtable") is not None or floors:
         t06_pref(run, fx)
         t06_sib(run, fx)
+    if floors or any(b.root.endswith("legacy_symbol_char_code") for b in fx.bodies):
+        t06_pua(run, fx)
 
 
 def macroman(run, fx, floors):
@@ -231,6 +300,16 @@ def t06_sib(run, fx):
         run.fail(rule, "sibling:format4:args", "; ".join(bad), sibs["map_glyph"][0].loc(sibs["map_glyph"][1]))
     else:
         run.ok(rule, "format 4: both siblings pass the iterator's idRangeOffset %s and idDelta %s to the shared kernel" % (a[1][0], a[3][0]))
+    # the enumeration walks every segment the lookup can hit: its segment iterator is not shortened or filtered
+    mb = sibs["mappings_fn"][0]
+    cut = sorted({(t["callee"].get("path") or "").split("::")[-1] for bi, t in mb.calls()
+                  if (t["callee"].get("path") or "").endswith(("Iterator::take", "Iterator::skip", "Iterator::step_by", "Iterator::filter",
+                                                               "Iterator::take_while", "Iterator::skip_while", "Iterator::filter_map"))})
+    if cut:
+        run.fail(rule, "sibling:format4:truncated", "Format4::mappings_fn shortens or filters its segment iterator (%s) while map_glyph searches every "
+                 "segment: mappings held in a skipped segment are looked up but not enumerated" % ", ".join(cut), "%s:%s" % (mb.file, mb.line))
+    else:
+        run.ok(rule, "format 4: the enumeration visits every segment (no take/skip/filter on the segment iterator)")
     import shape
     for path in ("tables::cmap::CmapSubtable::<'a>::map_glyph", "tables::cmap::CmapSubtable::<'a>::mappings_fn"):
         b = fx.body(path)
